@@ -9,8 +9,8 @@ Literal model of
   * `InsertEntity::write` (mutation_query.rs:458-477): `applyChange`
   * `DeletionQuery::build`, `validate_deletion`, `DeletionQuery::delete` (deletion.rs, authorisation_service.rs:443-539):
     `deleteNode`, `deleteRef`
-for data entities with one scalar field and mutation trees of depth two (an entity and the sub-entities of
-ONE of its reference fields). Rows, keys, entities, rooms are natural numbers; a signature is the pair
+for data entities with one scalar field and mutation trees of ANY depth (every entity of the tree may carry one
+reference field whose targets are entities of the same kind: `Mut`/`Field`, `flatten`). Rows, keys, entities, rooms are natural numbers; a signature is the pair
 (author, content), i.e. the `author` field of the row.
 
 Behaviour of the code that deviates from the property is switched by `Defects` (see DESIGN.md §4, App. A.1-A.3).
@@ -117,34 +117,57 @@ def Db.edgesOf (db : Db) (src label : Nat) : List EdgeRow :=
 
 /-! ### the mutation tree -/
 
-/-- a sub-entity of the mutated entity -/
-structure Leaf where
-  handle : Nat
-  isNew : Bool
-  entity : Ent
-  room : Option Id
-  val : Option Int
-deriving Repr, DecidableEq
-
+mutual
+/-- one entity of a mutation: `E { id? room_id? scalar? field? }`; its reference field holds further entities,
+    to any depth -/
+inductive Mut where
+  | mk (handle : Nat) (isNew : Bool) (entity : Ent) (room : Option Id) (val : Option Int) (field : Field) : Mut
+/-- the reference field of an entity (at most one per entity in this model) -/
 inductive Field where
+  | none : Field
+  | arr (label : Nat) (children : List Mut) : Field
+  | ent (label : Nat) (child : Mut) : Field
+  | null (label : Nat) : Field
+end
+
+def Mut.handle : Mut → Nat | .mk h _ _ _ _ _ => h
+def Mut.isNew : Mut → Bool | .mk _ n _ _ _ _ => n
+def Mut.entity : Mut → Ent | .mk _ _ e _ _ _ => e
+def Mut.room : Mut → Option Id | .mk _ _ _ r _ _ => r
+def Mut.val : Mut → Option Int | .mk _ _ _ _ v _ => v
+def Mut.field : Mut → Field | .mk _ _ _ _ _ f => f
+
+/-- what the plan of ONE entity needs to know of its reference field: the label and the ids of the targets -/
+inductive Shape where
   | none
-  | arr (label : Nat) (children : List Leaf)
-  | ent (label : Nat) (child : Leaf)
+  | arr (label : Nat) (dests : List Nat)
+  | ent (label : Nat) (dest : Nat)
   | null (label : Nat)
 deriving Repr, DecidableEq
 
-structure Mut where
+def Field.shape : Field → Shape
+  | .none => .none
+  | .arr label children => .arr label (children.map Mut.handle)
+  | .ent label child => .ent label child.handle
+  | .null label => .null label
+
+/-- one entity of the tree as `get_mutate_query` sees it: `room` is the room it names or, failing that, the room
+    named by its nearest ancestor that names one (`propagate_room`, mutation_parser.rs:206-236: the parser copies
+    the `room_id` field down the tree, level by level); `shadowed`: some ancestor's own row is unchanged -/
+structure Item where
   handle : Nat
   isNew : Bool
   entity : Ent
   room : Option Id
   val : Option Int
-  field : Field
+  shape : Shape
+  shadowed : Bool
 deriving Repr, DecidableEq
 
 /-- what `get_mutate_query` plans for one entity of the tree: the stored row it read (`old`), the row it
     will write (`node = none`: nothing changed, nothing written), the room the validation looks at, and the
-    references removed and added at this row -/
+    references removed and added at this row; `shadowed`: the own row of some ancestor in the tree is unchanged
+    (`node = none` there) — before the fix c887d69 such an entity was never validated (#1) -/
 structure Change where
   entity : Ent
   roomId : Option Id
@@ -152,6 +175,7 @@ structure Change where
   node : Option Row
   edgeDels : List EdgeRow
   edgeIns : List EdgeRow
+  shadowed : Bool := false
 deriving Repr, DecidableEq
 
 /-- `create_node_to_mutate` + the scalar part of `get_mutate_query`; `touched`: a reference of this entity changed -/
@@ -169,59 +193,65 @@ def planNode (db : Db) (now : Int) (handle : Nat) (isNew : Bool) (entity : Ent) 
         .ok (nodeRoom, some old, some { old with room := nodeRoom, mdate := now, val := val.getD old.val })
       else .ok (nodeRoom, some old, none)
 
-def planLeaf (db : Db) (now : Int) (parentRoom : Option Id) (l : Leaf) : Except MErr Change :=
-  -- the parser copies the room the parent names explicitly to the sub-entities that name none
-  let room := if l.room.isSome then l.room else parentRoom
-  match planNode db now l.handle l.isNew l.entity room l.val false with
-  | .error e => .error e
-  | .ok (roomId, old, node) => .ok { entity := l.entity, roomId, old, node, edgeDels := [], edgeIns := [] }
+/-- the references removed and added at row `handle` by its reference field (mutation_query.rs:179-268): an array
+    field adds a reference for each target not yet referenced; an entity field replaces the existing reference(s)
+    unless the same target is already referenced; `null` removes all references of the field -/
+def refChanges (db : Db) (now : Int) (handle : Nat) : Shape → List EdgeRow × List EdgeRow
+  | .none => ([], [])
+  | .arr label dests =>
+    ([], (dests.filter fun c => !db.edgeExists handle label c).map fun c =>
+      ({ src := handle, label, dest := c, author := 0, cdate := now } : EdgeRow))
+  | .ent label dest =>
+    if db.edgeExists handle label dest then ([], [])
+    else (db.edgesOf handle label, [{ src := handle, label, dest, author := 0, cdate := now }])
+  | .null label => (db.edgesOf handle label, [])
 
-def planLeaves (db : Db) (now : Int) (parentRoom : Option Id) : List Leaf → Except MErr (List Change)
+/-- the entity's own row will not be written: it is named by id, no scalar is given and no reference changes -/
+def unchanged (db : Db) (now : Int) (handle : Nat) (isNew : Bool) (val : Option Int) (sh : Shape) : Bool :=
+  !isNew && val.isNone && (refChanges db now handle sh).1.isEmpty && (refChanges db now handle sh).2.isEmpty
+
+mutual
+/-- the entities of the tree in the order `get_mutate_query`, `validate_entity_mutation` and `InsertEntity::write`
+    all visit them: an entity, then the entities of its reference field, each followed by its own sub-entities
+    (structural recursion on the tree, any depth). `inherited`: the room named by the nearest ancestor;
+    `shadow`: an ancestor's own row is unchanged. -/
+def flatten (db : Db) (now : Int) (inherited : Option Id) (shadow : Bool) : Mut → List Item
+  | .mk handle isNew entity room val field =>
+    let room := if room.isSome then room else inherited
+    { handle, isNew, entity, room, val, shape := field.shape, shadowed := shadow } ::
+      flattenField db now room (shadow || unchanged db now handle isNew val field.shape) field
+def flattenField (db : Db) (now : Int) (inherited : Option Id) (shadow : Bool) : Field → List Item
+  | .none => []
+  | .null _ => []
+  | .ent _ child => flatten db now inherited shadow child
+  | .arr _ children => flattenList db now inherited shadow children
+def flattenList (db : Db) (now : Int) (inherited : Option Id) (shadow : Bool) : List Mut → List Item
+  | [] => []
+  | c :: t => flatten db now inherited shadow c ++ flattenList db now inherited shadow t
+end
+
+/-- `get_mutate_query` for one entity: its stored row is read, the references of its field are compared with the
+    stored ones, the new row is prepared -/
+def planItem (db : Db) (now : Int) (it : Item) : Except MErr Change :=
+  let ch := refChanges db now it.handle it.shape
+  match planNode db now it.handle it.isNew it.entity it.room it.val (!ch.1.isEmpty || !ch.2.isEmpty) with
+  | .error e => .error e
+  | .ok (roomId, old, node) =>
+    .ok { entity := it.entity, roomId, old, node, edgeDels := ch.1, edgeIns := ch.2, shadowed := it.shadowed }
+
+def planItems (db : Db) (now : Int) : List Item → Except MErr (List Change)
   | [] => .ok []
-  | l :: t =>
-    match planLeaf db now parentRoom l with
+  | it :: t =>
+    match planItem db now it with
     | .error e => .error e
     | .ok c =>
-      match planLeaves db now parentRoom t with
+      match planItems db now t with
       | .error e => .error e
       | .ok cs => .ok (c :: cs)
 
-/-- the plan of a whole mutation: the entity itself, then its sub-entities -/
-def plan (db : Db) (now : Int) (m : Mut) : Except MErr (Change × List Change) :=
-  -- the stored row of the entity is read first (`create_node_to_mutate`), then the sub-entities
-  let pre : Except MErr Unit :=
-    if m.isNew then .ok () else
-      match db.getRow m.handle m.entity with
-      | none => .error .unknownEntity
-      | some _ => .ok ()
-  match pre with
-  | .error e => .error e
-  | .ok () =>
-    let subs : Except MErr (List Change × List EdgeRow × List EdgeRow) :=
-      match m.field with
-      | .none => .ok ([], [], [])
-      | .arr label children =>
-        match planLeaves db now m.room children with
-        | .error e => .error e
-        | .ok cs =>
-          let ins := (children.filter fun c => !db.edgeExists m.handle label c.handle).map fun c =>
-            ({ src := m.handle, label, dest := c.handle, author := 0, cdate := now } : EdgeRow)
-          .ok (cs, [], ins)
-      | .ent label child =>
-        match planLeaf db now m.room child with
-        | .error e => .error e
-        | .ok c =>
-          if db.edgeExists m.handle label child.handle then .ok ([c], [], [])
-          else .ok ([c], db.edgesOf m.handle label,
-                    [{ src := m.handle, label, dest := child.handle, author := 0, cdate := now }])
-      | .null label => .ok ([], db.edgesOf m.handle label, [])
-    match subs with
-    | .error e => .error e
-    | .ok (cs, dels, ins) =>
-      match planNode db now m.handle m.isNew m.entity m.room m.val (!dels.isEmpty || !ins.isEmpty) with
-      | .error e => .error e
-      | .ok (roomId, old, node) =>
-        .ok ({ entity := m.entity, roomId, old, node, edgeDels := dels, edgeIns := ins }, cs)
+/-- the plan of a whole mutation: one change per entity of the tree, the mutated entity first -/
+def plan (db : Db) (now : Int) (m : Mut) : Except MErr (List Change) :=
+  planItems db now (flatten db now none false m)
 
 /-! ### validation -/
 
@@ -261,6 +291,9 @@ def validateChange (df : Defects) (rooms : List Room) (caller : Key) (now : Int)
               author := caller })
         else .error .rejected
 
+/-- `validate_entity_mutation` over the tree, in the order it visits the entities: an entity whose own row is
+    unchanged is accepted as it is; every other one passes the right check. With the defect #1 the entities below an
+    unchanged row were not visited at all. Entities that were not visited are still written. -/
 def validateList (df : Defects) (rooms : List Room) (caller : Key) (now : Int) :
     List Change → Except MErr (List (Change × List EdgeTomb))
   | [] => .ok []
@@ -268,26 +301,13 @@ def validateList (df : Defects) (rooms : List Room) (caller : Key) (now : Int) :
     let one : Except MErr (List EdgeTomb) :=
       match c.node with
       | none => .ok []
-      | some _ => validateChange df rooms caller now c
+      | some _ => if df.subNodesSkipped && c.shadowed then .ok [] else validateChange df rooms caller now c
     match one with
     | .error e => .error e
     | .ok tombs =>
       match validateList df rooms caller now t with
       | .error e => .error e
       | .ok rest => .ok ((c, tombs) :: rest)
-
-/-- `validate_entity_mutation` on the tree: the entity, then (unless its row is unchanged and the defect is
-    on) its sub-entities. Sub-entities that were not visited are still written. -/
-def validateAll (df : Defects) (rooms : List Room) (caller : Key) (now : Int) (top : Change)
-    (subs : List Change) : Except MErr (List (Change × List EdgeTomb)) :=
-  match top.node with
-  | none =>
-    if df.subNodesSkipped then .ok ((top, []) :: subs.map fun c => (c, []))
-    else
-      match validateList df rooms caller now subs with
-      | .error e => .error e
-      | .ok l => .ok ((top, []) :: l)
-  | some _ => validateList df rooms caller now (top :: subs)
 
 /-! ### write -/
 
@@ -327,8 +347,8 @@ def applyAll (caller : Key) (db : Db) (l : List (Change × List EdgeTomb)) : Db 
 def mutate (df : Defects) (rooms : List Room) (db : Db) (caller : Key) (now : Int) (m : Mut) : Except MErr Db :=
   match plan db now m with
   | .error e => .error e
-  | .ok (top, subs) =>
-    match validateAll df rooms caller now top subs with
+  | .ok cs =>
+    match validateList df rooms caller now cs with
     | .error e => .error e
     | .ok l => .ok (applyAll caller db l)
 
@@ -423,9 +443,8 @@ def wouldBeTombs (caller : Key) (now : Int) (c : Change) : List EdgeTomb :=
 def mutateOutbox (df : Defects) (rooms : List Room) (db : Db) (caller : Key) (now : Int) (m : Mut) : Option Outbox :=
   match plan db now m with
   | .error _ => none
-  | .ok (top, subs) =>
-    let all := top :: subs
-    match validateAll df rooms caller now top subs with
+  | .ok all =>
+    match validateList df rooms caller now all with
     | .ok l =>
       some { localOk := true,
              nodes := l.filterMap fun ct => ct.1.node.map (signRow caller),
